@@ -27,6 +27,9 @@ type RoutineContainer struct {
 	routine *runningRoutine
 	// retryBo is the retry backoff if retrying is enabled.
 	retryBo cbackoff.BackOff
+	// prevExitedCh is closed when the last instance of a removed routine exits.
+	// only set while routine is nil.
+	prevExitedCh <-chan struct{}
 }
 
 // NewRoutineContainer constructs a new RoutineContainer.
@@ -171,15 +174,28 @@ func (k *RoutineContainer) setRoutineLocked(routine Routine, broadcast func()) (
 		k.routine = nil
 	}
 
+	// the next instance must wait for the last one started, even if its routine was removed meanwhile
+	startAfterCh := prevExitedCh
+	if prevRoutine == nil {
+		startAfterCh = k.prevExitedCh
+	}
+	k.prevExitedCh = nil
+
 	if routine != nil {
 		r := newRunningRoutine(k, routine)
 		k.routine = r
 		if k.ctx != nil {
-			k.routine.start(k.ctx, prevExitedCh, false)
+			k.routine.start(k.ctx, startAfterCh, false)
+		} else {
+			// started later by SetContext, which passes exitedCh as the channel to wait for
+			r.exitedCh = startAfterCh
 		}
 		broadcast()
-	} else if wasReset {
-		broadcast()
+	} else {
+		k.prevExitedCh = startAfterCh
+		if wasReset {
+			broadcast()
+		}
 	}
 
 	return prevExitedCh, wasReset
